@@ -87,7 +87,7 @@ var histTargets = []string{"gcc-leaky", "gcc-noop", "rtpfb"}
 
 var histPatterns = []string{
 	"under", "under-slow", "over", "over-large", "normal", "alternating", "alt-packet", "burst", "loss", "reorder",
-	"dup-feedback", "zero",
+	"dup-feedback", "zero", "long-swing",
 }
 
 func constRound(n, gapUs, offUs, minUs int) histRound {
@@ -102,7 +102,7 @@ func constRound(n, gapUs, offUs, minUs int) histRound {
 }
 
 // genHist: scenario k of the family. Target, feedback format and pattern are enumerated (every
-// combination occurs once per 72 scenarios), the numbers are drawn.
+// combination occurs once per 78 scenarios), the numbers are drawn.
 func genHist(r *rand.Rand, k int64) histScn {
 	s := histScn{K: k, PayLen: []int{0, 4, 100, 1200}[r.Intn(4)], SettleMs: 8 + r.Intn(25)}
 	i := int(k)
@@ -140,7 +140,7 @@ func genHist(r *rand.Rand, k int64) histScn {
 			if j%2 == r.Intn(2) {
 				s.Rounds = append(s.Rounds, constRound(5+r.Intn(3), g, (10+r.Intn(30))*ms, 0))
 			} else {
-				s.Rounds = append(s.Rounds, constRound(5+r.Intn(3), g, -(g - 6*ms), 5500))
+				s.Rounds = append(s.Rounds, constRound(5+r.Intn(3), g, -(g-6*ms), 5500))
 			}
 		}
 	case "alt-packet":
@@ -197,6 +197,24 @@ func genHist(r *rand.Rand, k int64) histScn {
 		rd := constRound(10+r.Intn(5), g, off, 5500)
 		rd.Repeat = 2 + r.Intn(3)
 		s.Rounds = []histRound{rd, constRound(3, g, off, 5500)}
+	case "long-swing":
+		// more than 60 arrival groups (the detector multiplies the estimate by min(numDeltas, 60), so late in a
+		// stream a small change of the estimate swings the compared value from one side of the threshold to the
+		// other), blocks of packets reported alternately late and early, several feedback packets
+		g := (11 + r.Intn(3)) * ms
+		a := (3 + r.Intn(4)) * ms
+		blk := 6 + r.Intn(8)
+		for j := 0; j < 4; j++ {
+			rd := constRound(20+r.Intn(4), g, 0, 5500)
+			for i := range rd.OffUs {
+				if ((j*24+i)/blk)%2 == 0 {
+					rd.OffUs[i] = a
+				} else {
+					rd.OffUs[i] = -a
+				}
+			}
+			s.Rounds = append(s.Rounds, rd)
+		}
 	default: // "zero": everything reported as arriving at the same instant
 		g := (6 + r.Intn(10)) * ms
 		s.Rounds = []histRound{constRound(10+r.Intn(5), g, -1000*ms, 0), constRound(3, g, -1000*ms, 0)}
@@ -915,9 +933,9 @@ func histSets(o *cq.Opts, self string, hs, rs *cq.Set, only *workItem) (fails []
 	case only != nil && only.RC != nil:
 		rItems = []workItem{*only}
 	default:
-		nh, nr := 144, 210 // (-n scales the byte-level fuzz only)
+		nh, nr := 156, 210 // (-n scales the byte-level fuzz only)
 		if o.Tier == "thorough" {
-			nh, nr = 1440, 1500
+			nh, nr = 1560, 1500
 		}
 		for k := int64(0); k < int64(nh); k++ {
 			s := genHist(rand.New(rand.NewSource(o.Seed*7_000_003+k)), k) //nolint:gosec
@@ -928,8 +946,8 @@ func histSets(o *cq.Opts, self string, hs, rs *cq.Set, only *workItem) (fails []
 			rItems = append(rItems, workItem{RC: &s})
 		}
 	}
-	// scenarios sleep most of the time: many workers; round-robin so that every worker gets every kind
-	const workers = 12
+	// scenarios sleep most of the time: many workers; a prime number of them, so that round-robin gives every worker every kind
+	const workers = 13
 	parts := make([][]workItem, workers)
 	index := make([][]int, workers)
 	for i, it := range hItems {
